@@ -13,6 +13,7 @@ open HC HC.Extracted
 
 inductive PyErr where
   | unexpectedMessage | valueError | typeError | indexError | keyError | attributeError | exception
+  | structError          -- `struct.error` (class name `error`): `struct.pack("!H", code)` of a close code outside 0..65535
 deriving Repr, DecidableEq
 
 /-- a header name / value / body / path exactly as the application supplied it -/
